@@ -24,6 +24,156 @@ CLAIMS = {
             "exhaustion. Trusted: ast, regex parser, dateutil model A2/A3; reference year in "
             "1970-2100.",
             "DESIGN.md §4 C01"),
+    "C02": ("proof",
+            "abstract interpretation: field intervals, part-of-day vocabulary, calendar-validity "
+            "flag and span provenance at every construction site; interval order by exhaustive "
+            "evaluation of path summaries over orderings (E4)",
+            "Decides: field ranges, known part of day, day exists in month/year (calendar flag), "
+            "fully dated interval start <= end on every path, accessors never raise (dt only the "
+            "documented ValueError on undated values), span = first argument start .. last "
+            "argument end, carried through the latent layer, taken on the normalised text.",
+            "Interval parameters are assumed ordered (induction over the rule base); date-less "
+            "clock ranges are drawn from the producible tuple set over hours 0..23 x minutes "
+            "{absent,0,30}. dateutil model A2.",
+            "DESIGN.md §4 C02"),
+    "C03": ("proof",
+            "def-use chain of the reference time over the call sites + summary terms of the "
+            "relative-day rules (located by vocabulary) compared with calendar arithmetic over "
+            "the reference-date sweep",
+            "Decides: reference-time defaulting and propagation; date/clock coherence of every "
+            "constructed value; the offset of today/tomorrow/.../end of month/year and the "
+            "this/next weekday conventions for every reference time of the sweep (quick: 14 "
+            "months incl. leap day + year ends; thorough: the full 2016-2043 cycle).",
+            "Not decided: which surface forms the regexes accept beyond the locating words; that "
+            "the scorer ranks the intended reading first. dateutil.relativedelta is the arithmetic "
+            "model of the summary terms.",
+            "DESIGN.md §4 C03"),
+    "C04": ("proof",
+            "summary terms of the four latent rules (located by role) compared with the "
+            "nearest-future specification over reference dates x written values",
+            "Decides: nearest matching date not before the reference date with the written "
+            "weekday/day/month preserved (incl. the clip hazard of relativedelta(day=N)), same-day "
+            "conventions, part-of-day anchoring per table key, arguments of the weekday+day search.",
+            "Not decided: ranking against competing readings. rrule(count=1)[0] assumed to be the "
+            "first match (A3).",
+            "DESIGN.md §4 C04"),
+    "C05": ("other",
+            "information-flow over E3 summary terms (reference-time dependence per returned "
+            "field and per path condition), sibling comparison of two-digit-year maps, "
+            "field-name provenance, month-name lexicon through the pattern automata",
+            "Decides: no production mixes reference-time-dependent fields with written ones or "
+            "branches on the reference time for a written value (except the bare-year two-digit "
+            "branch and the military-time heuristic, located by role); sibling agreement on "
+            "two-digit years; field names; month names -> month numbers. One known finding "
+            "(two-digit-year siblings disagree) is listed in known_findings.jsonl.",
+            "Not decided: that all notations select the same candidate (ranking); regex coverage "
+            "of every notation.",
+            "DESIGN.md §4 C05"),
+    "C06": ("proof",
+            "summary terms of the clock rules evaluated exhaustively over hour x minute x am/pm; "
+            "quarter/half maps; latent anchoring vs specification over the sweep; number-word "
+            "lexicon through the pattern automata",
+            "Decides: am/pm piecewise map (12 am = 0, pm adds 12 below 12), quarter/half maps and "
+            "their minute guard, latent clock anchoring strictly after the reference minute and "
+            "skipped with the option off, named hours one..twelve / eins..zwölf, hour-in-part-of-day "
+            "keeps minute and hour mod 12.",
+            "Not decided: that each notation's regex accepts each of the 1440 minutes; ranking.",
+            "DESIGN.md §4 C06"),
+    "C07": ("proof",
+            "interval order by exhaustive evaluation of path summaries over orderings / hours "
+            "(E4) with inductive hypothesis and producible clock-range tuples; mirror analysis of "
+            "the half-open rules; operand provenance",
+            "Decides: start < end strictly at every construction of a dated range, clock ranges "
+            "on a date and latent clock ranges at most 24 h, before/after bound the stated side "
+            "only (negation flips), range ends come from the left/right operand.",
+            "Not decided: joiner-word coverage; that the range reading is ranked first. Minutes "
+            "represented by {absent, 0, 30}.",
+            "DESIGN.md §4 C07"),
+    "C08": ("proof",
+            "sibling agreement of enum / vocabulary / offset table / tested unit sets by abstract "
+            "interpretation per unit; number- and unit-word lexicon through restricted pattern "
+            "automata; provenance of amount and end date",
+            "Decides: unit tables exhaustive and homonymous, amount passthrough, half rules, every "
+            "canonical number word 1..31 (EN/DE) and unit word accepted only through its own "
+            "alternative, number tokens closed by a word boundary, end = start.dt + amount x unit "
+            "for every unit, range accepted iff its day count equals the duration's.",
+            "Not decided: the value of date + N units (dateutil's calendar arithmetic).",
+            "DESIGN.md §4 C08"),
+    "C09": ("proof",
+            "regex edge-set analysis (can a pattern begin/end on a blank) + dataflow of the span "
+            "trimming in RegexMatch.__init__ + span provenance through wrapper and latent layer",
+            "Decides the span clauses and necessary conditions: blank-free spans, span = union of "
+            "consumed matches, span carried through latent rewrites, length term depends on the "
+            "text only through its length.",
+            "Not decided: that the value is unchanged by inert neighbours (matching + ranking).",
+            "DESIGN.md §4 C09"),
+    "C10": ("proof",
+            "automata comparison of the label find/strip languages on the valid-tag domain + "
+            "def-use comparison of the two subject/label derivations + orderedness typing",
+            "Decides: find and strip agree on valid hashtags, one derivation for the match and "
+            "no-match paths on the normalised text, subject built order-preservingly from the "
+            "split words, labels in text order, labels never reach matcher or subject.",
+            "Not decided: 'drops exactly the words inside the used matches' (value-level).",
+            "DESIGN.md §4 C10"),
+    "C11": ("proof",
+            "character-class semantics of the two substitution patterns compared with the stated "
+            "Unicode categories code point by code point; idempotence by class reasoning; "
+            "ignore-case flag of every cased pattern atom",
+            "Decides: separator and dash classes equal the stated categories (quick: BMP + samples; "
+            "thorough: all 0x110000 code points), run collapse, replacements, strips, idempotence, "
+            "only normalised text reaches the matcher, every cased atom case-insensitive.",
+            "unicodedata of the interpreter stands for the regex engine's Unicode tables.",
+            "DESIGN.md §4 C11"),
+    "C12": ("proof",
+            "effect analysis over the name-resolved call graph (call-time vs import-time), "
+            "caching constructs, E3 parameter effects of every production, hash-order analysis",
+            "Decides: no call-time write to module state, no hidden memory, arguments/scorer/rule "
+            "base unmodified, productions never store into their inputs (incl. the wrapper's span "
+            "update), set iteration orders independent of the string-hash seed.",
+            "Caller-supplied Scorer objects are outside the analysed program; no monkey-patching.",
+            "DESIGN.md §4 C12"),
+    "C13": ("proof",
+            "control-flow analysis of the search loop: must-pass-through of the deadline closure "
+            "per iteration of every sequence-indexed loop, handler containment, information flow "
+            "of timeout/closure, abstract interpretation of the closure",
+            "Decides: a deadline check before the work in every iteration of every loop over the "
+            "candidate sequences (and in the enumeration), every check inside the timeout handler, "
+            "timeout/closure reach no yielded value, timeout 0 never raises and a positive one can.",
+            "Not decided: the duration of one uninterruptible step.",
+            "DESIGN.md §4 C13"),
+    "C14": ("proof",
+            "recognition of the best-score selection idiom, evaluation of the emptiness guard and "
+            "of the re-emission guards on all orderings, signature comparison",
+            "Decides: returned element is a max-score element of list(stream), empty result iff "
+            "empty stream, options forwarded with equal defaults, re-emission only on strictly "
+            "higher score, log arguments are positive length quotients.",
+            "Not decided: finiteness of the log-odds of an arbitrary caller-supplied model.",
+            "DESIGN.md §4 C14"),
+    "C15": ("proof",
+            "E3 parameter-effect analysis of every production through the wrapper + abstract "
+            "interpretation of apply_rule + registry pairing",
+            "Decides: applying a rule never alters its inputs; the trace is extended by exactly the "
+            "applied registry item's name; the emitted production sequence is that trace; unique "
+            "registration.",
+            "Not decided: soundness/completeness of the optimised search vs. the derivation "
+            "semantics.",
+            "DESIGN.md §4 C15"),
+    "C17": ("proof",
+            "shape of the label expression + symbolic evaluation of the sample loop bounds + "
+            "value-equality of the resolution classes + def-use in the training script",
+            "Decides: label = value equality with the gold annotation, one sample per trace prefix "
+            "1..n with that label, trainer fed unchanged.",
+            "Not decided: monotonicity of the retrained score under duplication.",
+            "DESIGN.md §4 C17"),
+    "C18": ("proof",
+            "abstract interpretation of the constructor chains (equality/hash attribute list vs "
+            "constructor value fields) + printer/parser field, width and offset agreement via the "
+            "parser pattern's automaton",
+            "Decides: equality and hash by value fields only (no span), dynamic type compared, "
+            "printed forms accepted by the parser with fields in the same positions and widths, "
+            "separator and absent marker unambiguous, prefix offsets of parse_nb_string.",
+            "Not decided: injectivity outside the C02 field ranges.",
+            "DESIGN.md §4 C18"),
     "C19": ("proof",
             "syntax-tree checks of the rule module and rule._map + regex-tree width analysis "
             "+ shape fixpoint (dead rules, part-of-day closure) + pickle opcode reader",
@@ -34,6 +184,15 @@ CLAIMS = {
             "patterns shifts ids without making a vocabulary token unknown; that the ids "
             "still mean the training-time patterns is not recoverable from the pickle.",
             "DESIGN.md §4 C19"),
+    "C20": ("proof",
+            "regex ending-set analysis of the clock patterns (letter tails closed by a boundary) + "
+            "mirror comparison of the both-order gluing rules + identity check of absorb rules",
+            "Decides necessary conditions only: no clock pattern can swallow the first letters of "
+            "the next word, date x clock gluing takes the date from the date operand and the "
+            "clock from the clock operand in both orders, absorb rules are identities.",
+            "Not decided: the homomorphism itself (depends on which competing reading is ranked "
+            "first).",
+            "DESIGN.md §4 C20"),
 }
 
 NOT_APPLICABLE = {
